@@ -24,7 +24,7 @@ def main():
     rows = ['| seeded id | property | what was changed | needs to manifest | quick check |', '|---|---|---|---|---|']
     for d in sorted(x for x in glob.glob(os.path.join(V, 'seeded', '*')) if os.path.isdir(x)):
         m = json.load(open(os.path.join(d, 'meta.json')))
-        res = 'caught' if m.get('caught_by_quick_check') else 'MISSED'
+        res = 'caught' if m.get('caught_by_quick_check') else ('not asserted (outside what the check demands, see meta.json)' if m.get('not_asserted') else 'MISSED')
         if m.get('history'):
             res += ' (' + m['history'].split('(')[0].strip() + ')'
         rows.append('| %s | %s | %s | %s | %s |' % (os.path.basename(d), m['property'], str(m.get('summary', '')).replace('|', '/').replace('\n', ' ')[:260],
